@@ -240,23 +240,24 @@ theorem mono_clearDeadline (s : State) (c : Nat) (a : Act) : Mono s (clearDeadli
   exact mono_local s c _ fun _ => ⟨rfl, rfl, rfl, rfl, rfl, rfl, rfl⟩
 
 theorem monoPres (cfg : Cfg) (s0 : State) : Pres cfg (Mono s0) where
-  logAct := fun s c a _ h => h.trans (mono_logAct s c a)
-  closeT := fun s c h => h.trans (mono_closeT s c)
-  crashClose := fun s c h => h.trans (mono_crashClose s c)
-  doSubscribe := fun s c ch ok _ _ _ _ _ h => h.trans (mono_doSubscribe s c ch ok)
-  doUnsubscribe := fun s c ch _ _ _ h => h.trans (mono_doUnsubscribe s c ch)
-  setAuth := fun s c i d row _ _ _ h => h.trans (mono_setAuth s c i d row)
-  pauseReading := fun s c h => h.trans (mono_pauseReading s c)
-  resumeReading := fun s c h => h.trans (mono_resumeReading s c)
-  addPending := fun s c _ _ h => h.trans (mono_local s c _ fun _ => ⟨rfl, rfl, rfl, rfl, rfl, rfl, rfl⟩)
-  dropPending := fun s c _ h => h.trans (mono_local s c _ fun _ => ⟨rfl, rfl, rfl, rfl, rfl, rfl, rfl⟩)
-  setBuf := fun s c _ h => h.trans (mono_local s c _ fun _ => ⟨rfl, rfl, rfl, rfl, rfl, rfl, rfl⟩)
-  publish := fun s c x i ch p _ _ _ _ h => h.trans (mono_publish s c x i ch p)
-  addConn := fun s c n hc h => h.trans (mono_addConn cfg s c n hc)
-  peerClose := fun s c h => h.trans (mono_peerClose s c)
-  lostConn := fun s c _ _ _ h => h.trans (mono_lostConn s c)
-  armDeadline := fun s c h => h.trans (mono_armDeadline s c)
-  clearDeadline := fun s c a _ h => h.trans (mono_clearDeadline s c a)
+  prim := fun c => {
+    logAct := fun s a _ h => h.trans (mono_logAct s c a)
+    closeT := fun s h => h.trans (mono_closeT s c)
+    crashClose := fun s h => h.trans (mono_crashClose s c)
+    doSubscribe := fun s ch ok _ _ _ _ _ _ h => h.trans (mono_doSubscribe s c ch ok)
+    doUnsubscribe := fun s ch _ _ _ _ h => h.trans (mono_doUnsubscribe s c ch)
+    setAuth := fun s i d row _ _ _ h => h.trans (mono_setAuth s c i d row)
+    pauseReading := fun s h => h.trans (mono_pauseReading s c)
+    resumeReading := fun s h => h.trans (mono_resumeReading s c)
+    addPending := fun s _ _ h => h.trans (mono_local s c _ fun _ => ⟨rfl, rfl, rfl, rfl, rfl, rfl, rfl⟩)
+    dropPending := fun s _ h => h.trans (mono_local s c _ fun _ => ⟨rfl, rfl, rfl, rfl, rfl, rfl, rfl⟩)
+    setBuf := fun s _ h => h.trans (mono_local s c _ fun _ => ⟨rfl, rfl, rfl, rfl, rfl, rfl, rfl⟩)
+    publish := fun s x i ch p _ _ _ _ h => h.trans (mono_publish s c x i ch p)
+    addConn := fun s n hc h => h.trans (mono_addConn cfg s c n hc)
+    peerClose := fun s h => h.trans (mono_peerClose s c)
+    lostConn := fun s _ _ _ h => h.trans (mono_lostConn s c)
+    armDeadline := fun s h => h.trans (mono_armDeadline s c)
+    clearDeadline := fun s a _ h => h.trans (mono_clearDeadline s c a) }
   tick := fun s ms h => h.trans (mono_of_conn_eq rfl)
 
 /-- every step, and every sequence of steps, is monotone -/
